@@ -276,7 +276,7 @@ func (x *AppA) Feed(o Op) {
 		if x.EagerBlocks { // an empty block at the new time right away; transactions follow in later blocks
 			x.flush()
 		}
-	case OpAddAllowed, OpUpdateAllowed, OpSetBalance:
+	case OpAddAllowed, OpUpdateAllowed, OpSetBalance, OpReimport:
 		x.direct(o)
 	case OpUpdateParams:
 		if o.Signer < 0 && o.SignerStr == "" { // the governance authority cannot sign a transaction
